@@ -1106,6 +1106,8 @@ def run(an: Analysis, rep):
                               "constant moved out of / into the docstring slot changes co_varnames / co_consts of the re-encoded object, silently")
     rep.run(_c04d.r041_input, an, shd11)
     rep.run(_c04d.r045, an, shd11)
+    rep.run(lambda a_, r_: _c04d.r04f(a_, r_, roundtrip=True), an, _SR(rep, "R11.Y", "from_code then to_code folded over witness code objects of every kind of scope (C04's R04.W witnesses): the flags word, "
+                                                                            "the argument counts and every other header field handed to CodeType equal the attributes of the witness"))
     from . import c03 as _c03e
     rep.run(_c03e.r03e, an, _SR(rep, "R11.E", "the encoder's layout folded over witness block lists (shared with C03's R03.E): the tables come out in first-use order with the unreferenced entries last - the "
                                               "order the decoder assumed when it left them without a position - so co_names / co_consts are reproduced exactly"))
